@@ -38,7 +38,7 @@ type tProbe struct {
 
 // tCase is one case of any kind; it is its own replay.
 type tCase struct {
-	Kind   string   `json:"kind"` // tdec | tenc | preq | psrv | prsp | pparse
+	Kind   string   `json:"kind"` // tdec | tenc | preq | psrv | prsp | pparse | ptmo
 	Note   string   `json:"note"`
 	Class  string   `json:"class"`
 	Expect string   `json:"expect,omitempty"` // tdec: "roundtrip" | "err" | ""
@@ -180,6 +180,20 @@ func tWorker(raw []byte) string {
 		runtime.ReadMemStats(&m1)
 		rs.Alloc = m1.TotalAlloc - m0.TotalAlloc
 		rs.N, rs.Status = p.ParsePackage(in)
+	case "ptmo":
+		runtime.ReadMemStats(&m0)
+		t0 := time.Now()
+		func() {
+			defer func() {
+				if r := recover(); r != nil {
+					rs.Obs, rs.Err = "OPanic", fmt.Sprint(r)
+				}
+			}()
+			rs.Obs = "reply " + hexOf((&tars.Protocol{}).InvokeTimeout(in))
+		}()
+		rs.Us = time.Since(t0).Microseconds()
+		runtime.ReadMemStats(&m1)
+		rs.Alloc = m1.TotalAlloc - m0.TotalAlloc
 	case "pparse":
 		p := &protocol.TarsProtocol{}
 		func() {
@@ -581,6 +595,45 @@ func c05tGen(tier string, rng *rand.Rand) []tCase {
 		rng.Read(bs)
 		unp("random", "", c05Frame(bs))
 	}
+	// InvokeTimeout (server side: pkg[4:], ReadFrom, rsp2Byte): packed requests of every version, mutated, cut, short
+	tmo := func(class, note string, bs []byte) {
+		cs = append(cs, tCase{Kind: "ptmo", Class: "ptmo/" + class, Note: note, Bytes: bs})
+	}
+	reqEntry := registry[sidOf[reflect.TypeOf(requestf.RequestPacket{})]]
+	for i := 0; i < npk; i++ {
+		v := gRandomValue(rng, reqEntry).(*requestf.RequestPacket)
+		if k := i % 4; k > 0 {
+			v.IVersion = int16(k) // 1 = TARS, 2, 3 = TUP
+		}
+		pk, err := (&protocol.TarsProtocol{}).RequestPack(v)
+		if err != nil || len(pk) > 1500 {
+			continue
+		}
+		pk = append([]byte(nil), pk...)
+		tmo(fmt.Sprintf("valid/v%d", i%4), "packed request", pk)
+		nb := append([]byte(nil), pk...)
+		p := 4 + rng.Intn(len(nb)-4)
+		nb[p] = byte(rng.Intn(256))
+		tmo("mutated", fmt.Sprintf("byte %d changed", p), nb)
+		tmo("truncated", "body cut", pk[:4+rng.Intn(len(pk)-4)])
+	}
+	for l := 0; l <= 5; l++ {
+		tmo("short", fmt.Sprintf("%d bytes", l), make([]byte, l))
+	}
+	{
+		v := reqEntry.mk().(*requestf.RequestPacket)
+		v.IVersion, v.IRequestId, v.SBuffer = 3, 9, []int8{}
+		body, _ := gEncode(v)
+		if sp, ok := walkTop(body); ok {
+			for _, s := range sp {
+				if s.Ty == 13 && s.Tag == 7 {
+					for _, h := range [][]byte{{0x00, 0xff}, {0x02, 0x7f, 0xff, 0xff, 0xff}, {0x00, 0x02, 0x00, 0x01, 0x00, 0x02}} {
+						tmo("list-coded-bytes", fmt.Sprintf("sBuffer as LIST, count % x", h), c05Frame(cat(body[:s.Start], []byte{0x79}, h, body[s.End:])))
+					}
+				}
+			}
+		}
+	}
 	// ParsePackage: lengths around 0..8, header values around 4, the buffer length and the limit
 	max := protocol.VerifMaxPackageLength()
 	pp := func(note string, bs []byte) {
@@ -619,7 +672,7 @@ func c05tRunAll(cs []tCase) [][]Failure {
 	for i := range cs {
 		c := &cs[i]
 		switch c.Kind {
-		case "tdec", "prsp", "pparse":
+		case "tdec", "prsp", "pparse", "ptmo":
 			b, _ := json.Marshal(tWorkReq{Kind: c.Kind, Prior: c.Prior, Bytes: c.Bytes, Probes: c.Probes})
 			reqs = append(reqs, decReq{ID: len(reqs), Entry: "tupx", Bytes: b})
 			idx = append(idx, i)
@@ -635,7 +688,7 @@ func c05tRunAll(cs []tCase) [][]Failure {
 	for k, r := range resp {
 		i := idx[k]
 		c := &cs[i]
-		ent := map[string]string{"tdec": "tup/decode", "prsp": "packet/response-unpack", "pparse": "packet/parse-package"}[c.Kind]
+		ent := map[string]string{"tdec": "tup/decode", "prsp": "packet/response-unpack", "pparse": "packet/parse-package", "ptmo": "packet/invoke-timeout"}[c.Kind]
 		if r.Died != "" {
 			c.NoCoq = true
 			fails[i] = append(fails[i], Failure{Sig: ent + "/process-death/" + tDeathClass(r.Died), Desc: fmt.Sprintf("%s %s: the worker died or hung: %s (input % x)", c.Class, c.Note, r.Died, trunc(c.Bytes))})
@@ -668,6 +721,8 @@ func c05tRunAll(cs []tCase) [][]Failure {
 			if rs.Obs == "OPanic" && len(c.Bytes) >= 4 && !full {
 				fails[i] = append(fails[i], Failure{Sig: "packet/response-unpack/panic/" + classifyPanic(rs.Err), Desc: fmt.Sprintf("%s: ResponseUnpack panics: %s", c.Note, rs.Err)})
 			}
+		case "ptmo":
+			fails[i] = append(fails[i], tJudgeTmo(c)...)
 		case "pparse":
 			if rs.Status < 0 {
 				fails[i] = append(fails[i], Failure{Sig: "packet/parse-package/panic-or-differs", Desc: c.Note + ": " + rs.Err})
@@ -734,6 +789,51 @@ func tJudgeDec(c *tCase) []Failure {
 					break
 				}
 			}
+		}
+	}
+	return fs
+}
+
+// tJudgeTmo: InvokeTimeout on a packet of at least header size never panics, and its reply is a packet that the
+// client side accepts: header = length, and it carries the request's id when the request decodes
+func tJudgeTmo(c *tCase) []Failure {
+	if c.Obs == "OPanic" {
+		if len(c.Bytes) < 4 {
+			return nil // req[4:]: the receive paths never hand over less than a header (ParsePackage)
+		}
+		return []Failure{{Sig: "packet/invoke-timeout/panic/" + classifyPanic(c.Err), Desc: fmt.Sprintf("%s: InvokeTimeout panics: %s (input % x)", c.Note, c.Err, trunc(c.Bytes))}}
+	}
+	var reply B
+	if err := json.Unmarshal([]byte("\""+strings.TrimPrefix(c.Obs, "reply ")+"\""), &reply); err != nil {
+		return []Failure{{Sig: "harness/worker-protocol", Desc: "unexpected worker answer: " + c.Obs}}
+	}
+	var fs []Failure
+	if !tHeaderOK(reply) {
+		return []Failure{{Sig: "packet/invoke-timeout/header-length", Desc: fmt.Sprintf("%s: reply header % x over %d bytes", c.Note, trunc(reply), len(reply))}}
+	}
+	if n, st := (&protocol.TarsProtocol{}).ParsePackage(reply); st != protocol.PackageFull || n != len(reply) {
+		fs = append(fs, Failure{Sig: "packet/invoke-timeout/reply-not-a-full-package", Desc: fmt.Sprintf("%s: ParsePackage of the reply: (%d, %d), length %d", c.Note, n, st, len(reply))})
+	}
+	req := new(requestf.RequestPacket)
+	if err := req.ReadFrom(codec.NewReader(c.Bytes[4:])); err == nil {
+		var ver int16
+		var id int32
+		var ret int32 = 1
+		if req.IVersion == basef.TUPVERSION {
+			back := new(requestf.RequestPacket)
+			if err := back.ReadFrom(codec.NewReader(reply[4:])); err != nil {
+				return append(fs, Failure{Sig: "packet/invoke-timeout/reply-undecodable", Desc: c.Note + ": " + err.Error()})
+			}
+			ver, id = back.IVersion, back.IRequestId
+		} else {
+			back, err := (&protocol.TarsProtocol{}).ResponseUnpack(reply)
+			if err != nil {
+				return append(fs, Failure{Sig: "packet/invoke-timeout/reply-undecodable", Desc: c.Note + ": " + err.Error()})
+			}
+			ver, id, ret = back.IVersion, back.IRequestId, back.IRet
+		}
+		if ver != req.IVersion || id != req.IRequestId || ret != 1 {
+			fs = append(fs, Failure{Sig: "packet/invoke-timeout/reply-differs", Desc: fmt.Sprintf("%s: request version %d id %d; reply version %d id %d ret %d", c.Note, req.IVersion, req.IRequestId, ver, id, ret)})
 		}
 	}
 	return fs
@@ -897,6 +997,14 @@ func c05tCoq(c *tCase) string {
 			return ""
 		}
 		return fmt.Sprintf("PRsp %s (%s)", hx(c.Bytes), c.Obs)
+	case "ptmo":
+		if c.Obs == "OPanic" {
+			return fmt.Sprintf("PTmo %s None", hx(c.Bytes))
+		}
+		if !strings.HasPrefix(c.Obs, "reply ") {
+			return ""
+		}
+		return fmt.Sprintf("PTmo %s (Some \"%s\"%%hex)", hx(c.Bytes), strings.TrimPrefix(c.Obs, "reply "))
 	case "pparse":
 		if c.Status < 0 {
 			return ""
